@@ -593,6 +593,15 @@ def r_byteclass(P, chk):
     # label_from_string keeps multi-byte sequences together and only case-maps ASCII
     lf = P.func("label_from_string", "writer.c")
     loops = [w for w in lf.walk() if w["k"] in ("WhileStmt", "IfStmt") and "&192)==128" in key(w["c"][0]).replace(" ", "")]
+    # the copying loop runs for as long as continuation bytes follow: no other conjunct may end it earlier
+    for w in loops:
+        if w["k"] == "WhileStmt":
+            ck = key(w["c"][0]).replace(" ", "")
+            exact = bool(re.match(r"^\(\(\*\w+&192\)==128\)$", ck))
+            chk.obligation(rid, "label_from_string: the continuation-byte loop is bounded only by `(next & 0xC0) == 0x80`", exact)
+            if not exact:
+                chk.violation(rid, "byteclass:label:loopbound", lf.where(w), "label_from_string's continuation-byte loop has an extra stop "
+                              "condition (`%s`): a long sequence (4-byte character) is cut and its tail bytes dropped" % ck[:60])
     app_plain = False
     for w in loops:
         for x in walk(w["c"][1]):
@@ -727,3 +736,91 @@ def r_mate_guard(P, chk):
                                   "%s pairs `%s` without testing that it is still unmatched: a token that already has a mate is "
                                   "paired again and its old partner keeps pointing at it (asymmetric mates)" % (f.name, var))
     chk.floor(rid, n, 1, "token_pair_mate call sites")
+
+
+
+# ---------------------------------------------------------------------------
+# R-HIGHBYTE (C16): hand-written code never looks at a single byte >= 0x80 as if it were a character
+
+def r_highbyte(P, chk):
+    rid = "R-HIGHBYTE"
+    chk.rule(rid, "outside the UTF-8 validator, a byte of text is compared with a constant >= 0x80 only in mask form "
+                  "`(c & M) == K` (UTF-8 structure test); a bare `c == 0xA0` style test treats the last byte of many multi-byte "
+                  "characters as a character of its own")
+    n = 0
+
+    def text_byte(e):
+        e0 = e
+        e = strip(e)
+        if e is None:
+            return False
+        t = (e.get("t") or "").replace("const ", "").strip()
+        if e["k"] == "ArraySubscriptExpr" or (e["k"] == "UnaryOperator" and e["op"] == "*"):
+            return t in ("char", "unsigned char", "signed char")
+        return False
+    for f in P.all_funcs:
+        if not P.first_party(f) or f.unit.base in compdb.GENERATED_UNITS or f.unit.base in ("miniz.c", "argtable3.c"):
+            continue
+        if f.name == "utf8_check":
+            continue
+        for x in f.walk():
+            if x["k"] != "BinaryOperator" or x["op"] not in ("==", "!=", "<", ">", "<=", ">="):
+                continue
+            for a, b in ((x["c"][0], x["c"][1]), (x["c"][1], x["c"][0])):
+                cv = const_value(b)
+                if cv is None or not (128 <= cv <= 255 or -128 <= cv < 0):
+                    continue
+                sa = strip(a)
+                if sa is None:
+                    continue
+                if sa["k"] == "BinaryOperator" and sa["op"] == "&" and (text_byte(sa["c"][0]) or text_byte(sa["c"][1])):
+                    n += 1
+                    chk.obligation(rid, "%s %s: %s (mask form)" % (f.where(x), f.name, key(x)[:50]), True, sample=False)
+                elif text_byte(a):
+                    n += 1
+                    chk.obligation(rid, "%s %s: %s" % (f.where(x), f.name, key(x)[:50]), False)
+                    chk.violation(rid, "highbyte:%s:%s:%d" % (f.unit.base, f.name, cv & 0xff), f.where(x),
+                                  "%s compares a single text byte with 0x%02x: bytes >= 0x80 are parts of multi-byte characters, not "
+                                  "characters" % (f.name, cv & 0xff))
+    chk.floor(rid, n, 2, "comparisons of text bytes with high constants")
+
+
+# ---------------------------------------------------------------------------
+# R-ONCE (C13 path resolution): a buffer that is created from a string does not get the same string appended again
+
+def r_once(P, chk):
+    rid = "R-ONCE"
+    chk.rule(rid, "on no CFG path is the string a DString was created from (`D = d_string_new(x)`, x not a literal) appended to that "
+                  "same DString again (`d_string_append(D, x)`) without D or x being reassigned in between: the component would "
+                  "occur twice (path resolution: `/t/lib` + `/t/lib`)")
+    n = 0
+    for f in P.all_funcs:
+        if not P.first_party(f) or f.unit.base in compdb.GENERATED_UNITS or f.unit.base in ("miniz.c", "argtable3.c"):
+            continue
+        pos = f.cfg.positions()
+        news = []
+        for x in f.walk():
+            tgt = rhs = node = None
+            if x["k"] == "VarDecl" and x.get("c") and x["c"][0] is not None:
+                tgt, rhs, node = x["n"], x["c"][0], f.parent(x)
+            elif x["k"] == "BinaryOperator" and x["op"] == "=":
+                tgt, rhs, node = key(x["c"][0]), x["c"][1], x
+            r = strip(rhs) if rhs is not None else None
+            if r is None or r["k"] != "CallExpr" or r.get("callee") != "d_string_new" or node is None or node.get("i") not in pos:
+                continue
+            a = strip(r["c"][1])
+            if a is None or a["k"] == "StringLiteral":
+                continue
+            news.append((tgt, key(a), node))
+        for D, src, node in news:
+            n += 1
+            apps = [c for c in f.calls("d_string_append") if key(c["c"][1]) == D and key(c["c"][2]) == src and c["i"] in pos]
+            cuts = [y for y in f.walk() if y["k"] == "BinaryOperator" and y["op"] == "=" and key(y["c"][0]) in (D, src) and y is not node and y.get("i") in pos]
+            from .rules_mem import _reaches
+            bad = [c for c in apps if _reaches(f, pos, node, c, cuts)]
+            chk.obligation(rid, "%s %s: %s = d_string_new(%s) - %s not appended again" % (f.where(node), f.name, D, src, src), ok=not bad)
+            if bad:
+                chk.violation(rid, "once:%s:%s:%s" % (f.unit.base, f.name, src), f.where(bad[0]),
+                              "%s creates %s from `%s` and appends `%s` to it again at %s" % (f.name, D, src, src, f.where(bad[0])))
+    chk.floor(rid, n, 8, "DStrings created from a non-literal string")
+    chk.analysed[rid] = {"sites": n}
